@@ -2,6 +2,7 @@ package rules
 
 import (
 	"fmt"
+	"strings"
 
 	"golang.org/x/tools/go/ssa"
 
@@ -180,7 +181,36 @@ func runC18(p *core.Prog, r *core.Report, tier string) {
 				fmt.Sprintf("handler stores (%s, %s): must be Block and Slot of the same event", kd, vd))
 		}
 	}
-	r.Floor("C18.d event feeders", nHandlers, 1)
+	// the other feeders of the cache: every caller of the setter outside the cache package (the controller's block
+	// event handler) stores the Block and Slot of one event, unaltered, whichever way the value flows in
+	for _, f := range p.SrcFuncs() {
+		rel := core.RelPkg(f.Pkg.Pkg.Path())
+		if rel == cacheRel || strings.Contains(rel, "/mock") {
+			continue
+		}
+		for _, ci := range core.CallsNamed(f, "SetBlockRootToSlot") {
+			args := ci.Common().Args
+			if len(args) < 2 {
+				continue
+			}
+			nHandlers++
+			kd := ds.D(args[len(args)-2])
+			kr, kp := kd.FieldPath()
+			ok := len(kp) == 1 && kp[0] == "Block"
+			var bad string
+			for _, lf := range core.FeasibleLeaves(f, args[len(args)-1], ci.(ssa.Instruction)) {
+				vd := ds.D(lf.V)
+				vr, vp := vd.FieldPath()
+				if !(len(vp) == 1 && vp[0] == "Slot" && vr.String() == kr.String()) {
+					ok = false
+					bad = vd.String()
+				}
+			}
+			r.Check(ok, "C18.d", core.FnKey(f)+"|store", p.Pos(ci.Pos()), "stores (ev.Block, ev.Slot) of one event value: "+kr.String(),
+				fmt.Sprintf("stores (%s, %s): the slot recorded for a root must be that block's own slot from the same event (a value adjusted to the local clock is served as the block's slot by every later hit)", kd, bad))
+		}
+	}
+	r.Floor("C18.d event feeders", nHandlers, 2)
 
 	// ---- C18.e: cleaning ----
 	nDel := 0
